@@ -16,6 +16,7 @@ from .. import textgen as T
 
 PROP = "C19"
 PROP_V = "theories/props/C19.v"
+MODEL_AREAS = ('front', 'tc', 'run')
 
 
 def pool(seed, tier):
